@@ -6,6 +6,7 @@ import Oracle.DispatchEngine
 import Oracle.ClaimEngine
 import Oracle.FsPathEngine
 import Oracle.TokenEngine
+import Oracle.CcbEngine
 
 def main (args : List String) : IO UInt32 := do
   match args with
@@ -17,6 +18,7 @@ def main (args : List String) : IO UInt32 := do
   | ["claim"] => Oracle.ClaimEngine.run; return 0
   | ["fspath"] => Oracle.FsPathEngine.run; return 0
   | ["token"] => Oracle.TokenEngine.run; return 0
+  | ["ccb"] => Oracle.CcbEngine.run; return 0
   | _ =>
     IO.eprintln "usage: cedar_oracle <engine>   (one op per stdin line, one reply per line)"
     return 2
